@@ -473,10 +473,10 @@ def run(ctx: Ctx):
     # O6 the Rust kernel counts every occurrence of an edge; so must the Python bookkeeping
     from .c14 import check_kahn
 
-    check_kahn(ctx, "C12-O6")
+    ctx.step(check_kahn, "C12-O6")
     from .c11 import check_floyd_edge_ingest
 
-    check_floyd_edge_ingest(ctx, "C12-O4")
+    ctx.step(check_floyd_edge_ingest, "C12-O4")
     generic_sweeps(ctx)
 
 
